@@ -56,4 +56,3 @@ func ConcurrentCreate(trials int) (string, string) {
 	}
 	return "", ""
 }
-
